@@ -307,3 +307,23 @@ pub fn c06_decoder_step_nested() {
     cover!(first_is_one && pulled_first, "one-bit symbol after pulling a chunk");
     sym::forget(code);
 }
+
+// @h prop=C06 tier=quick kind=proof timeout=900 memw=6 unwindset="drop_glue|drop_in_place:1;from_fn|Decode.*map:258;insert_decode:258" inst="Decoder::next through a NESTED table, symbol starting on a byte boundary: code {A: nine 0-bits, B: one 1-bit}" bounds="state: exactly 8 zero bits pending (a whole aligned byte), one further chunk of 1..8 symbolic bits whose first bit is 0" desc="a code deeper than one byte that starts exactly on a byte boundary decodes (descend into the second-level table, pull the next chunk): symbol A, remaining bits preserved"
+#[cfg_attr(kani, kani::proof, kani::unwind(3))]
+pub fn c06_decoder_step_nested_aligned() {
+    let a = sym::u8();
+    let b = sym::u8();
+    let code = Code::<u8>::decode_only(&[(a, 9, 0), (b, 1, 1)]);
+    let n = sym::upto(8);
+    let c = sym::u8();
+    sym::assume(n >= 1 && (c as u32) < (1u32 << n));
+    sym::assume((c >> (n - 1)) & 1 == 0);
+    let (got, st) = code.decode_step(0, 8, Some((c, n)));
+    match got {
+        None => assert!(false, "C06: decoder stops although a whole code word remains"),
+        Some(s) => assert!(*s == a, "C06: decoder yields the wrong symbol for a 9-bit code starting on a byte boundary"),
+    }
+    assert!(st.1 == n - 1 && st.0 as u32 == (c as u32) & ((1u32 << (n - 1)) - 1), "C06: decoder corrupted the remaining bits (aligned nested code)");
+    cover!(n == 8, "a full further byte");
+    sym::forget(code);
+}
